@@ -18,7 +18,7 @@ import (
 // typeNameRule: ImportNames.TypeName renders every type shape as documented.
 func (c *Ctx) typeNameRule(rule string) {
 	r := c.R
-	r.Rule(rule, "ImportNames.TypeName(t): *T → \"*\"+TypeName(T); basic → its name; named without package (universe) → bare name; named whose package path is in the import table → <table name>.<Name>; other named → bare name; anything else → types.TypeString with a qualifier that answers the table name for imported paths and \"\" otherwise; IsExternal(t) ⇔ named ∧ package path in the table")
+	r.Rule(rule, "ImportNames.TypeName(t): *T → \"*\"+TypeName(T); basic → its name; named without package (universe) → bare name; named whose package path is in the import table under a name other than \".\" → <table name>.<Name>; other named (own package, dot-imported) → bare name; anything else → types.TypeString with a qualifier that answers the table name for imported paths and \"\" otherwise; IsExternal(t) ⇔ named ∧ package path in the table")
 	fn := c.MustMethod(rule, "/pkg/util", "ImportNames", "TypeName")
 	if fn == nil {
 		return
@@ -38,6 +38,12 @@ func (c *Ctx) typeNameRule(rule string) {
 	tableLookup := func(t *core.Term) bool { // imports[Obj().Pkg().Path()]
 		return (t.Kind == "lookup,ok" || t.Kind == "lookup") && t.Args[1].IsCallTo("(*go/types.Package).Path") && pkgOfObj(t.Args[1].Args[0])
 	}
+	// the table name "." (dot import) is no qualifier
+	isDotName := func(x *core.Term) bool {
+		return x.Kind == "extract" && x.Name == "0" && (tableLookup(x.Args[0]) || x.Args[0].Kind == "lookup,ok")
+	}
+	dot := c.M(true, eqConst(isDotName, `"."`))
+	notDot := c.M(false, eqConst(isDotName, `"."`))
 	seen := map[string]bool{}
 	for i, ret := range core.Returns(fn) {
 		d := c.ReachOf(ret)
@@ -57,8 +63,9 @@ func (c *Ctx) typeNameRule(rule string) {
 			case d.Implies(c.M(true, isNilCmp(pkgOfObj))):
 				seen["universe"] = true
 				r.Check(rule, k+":universe", c.InstrPos(ret), objName(t), "a package-less named type must render as its bare name, got "+t.String())
-			case d.Implies(c.M(true, func(x *core.Term) bool { return x.Kind == "extract" && x.Name == "1" && tableLookup(x.Args[0]) })):
+			case d.Implies(c.M(true, func(x *core.Term) bool { return x.Kind == "extract" && x.Name == "1" && tableLookup(x.Args[0]) })) && !d.Implies(dot):
 				seen["imported"] = true
+				r.Check(rule, k+":imported:not-dot", c.InstrPos(ret), d.Implies(notDot), "a type of a dot-imported package (table name \".\") is rendered with the table name as qualifier: `..T` does not parse")
 				ok := false
 				if t.IsCallTo("fmt.Sprintf") && t.Args[0].Is("const", `"%v.%v"`) {
 					a0 := c.varargAt(ret.Results[0].(*ssa.Call).Call.Args[1], 0)
@@ -70,8 +77,8 @@ func (c *Ctx) typeNameRule(rule string) {
 				r.Check(rule, k+":imported", c.InstrPos(ret), ok, "a named type of an imported package must render as <name in the import table>.<type name>, got "+t.String())
 			default:
 				seen["local"] = true
-				r.Check(rule, k+":local", c.InstrPos(ret), objName(t) && d.Implies(c.M(false, func(x *core.Term) bool { return x.Kind == "extract" && x.Name == "1" && tableLookup(x.Args[0]) })),
-					"a named type whose package is not in the import table must render as its bare name (only on the not-found edge of the table lookup), got "+t.String())
+				r.Check(rule, k+":local", c.InstrPos(ret), objName(t) && d.Implies(c.M(false, func(x *core.Term) bool { return x.Kind == "extract" && x.Name == "1" && tableLookup(x.Args[0]) }), dot),
+					"a named type whose package is not in the import table, or is dot-imported, must render as its bare name (only on the not-found edge of the table lookup or for the table name \".\"), got "+t.String())
 			}
 		default:
 			seen["composite"] = true
@@ -92,15 +99,15 @@ func (c *Ctx) typeNameRule(rule string) {
 							return x.Kind == "extract" && x.Name == "1" && x.Args[0].Kind == "lookup,ok" && x.Args[0].Args[1].IsCallTo("(*go/types.Package).Path") && x.Args[0].Args[1].Args[0].Kind == "param"
 						}
 						switch {
-						case qd.Implies(c.M(true, found)):
-							okQ = okQ && qt.Kind == "extract" && qt.Name == "0" && qt.Args[0].Kind == "lookup,ok"
-						case qd.Implies(c.M(false, found)):
+						case qd.Implies(c.M(true, found)) && !qd.Implies(dot):
+							okQ = okQ && qt.Kind == "extract" && qt.Name == "0" && qt.Args[0].Kind == "lookup,ok" && qd.Implies(notDot)
+						case qd.Implies(c.M(false, found), dot):
 							okQ = okQ && qt.Is("const", `""`)
 						default:
 							okQ = false
 						}
 					}
-					r.Check(rule, FnKey(af)+":qualifier", c.Pos(af.Pos()), okQ && nq == 2, "the qualifier must answer imports[p.Path()] when present and \"\" otherwise")
+					r.Check(rule, FnKey(af)+":qualifier", c.Pos(af.Pos()), okQ && nq == 2, "the qualifier must answer imports[p.Path()] when present and not \".\" (dot import), and \"\" otherwise")
 				}
 			}
 		}
@@ -1677,7 +1684,14 @@ func (c *Ctx) cutRangeRule(rule string) {
 		return
 	}
 	n := 0
-	for _, s := range c.CallsIn(fn, "go/ast.Inspect", true) {
+	// the walk may live in GenerateBaseCode itself or in a helper of the parser split off from it
+	var sites []Site
+	for _, s := range c.CallsTo("go/ast.Inspect") {
+		if p := pkgOf(s.Fn); p != nil && p.Path() == mod+"/pkg/parser" {
+			sites = append(sites, s)
+		}
+	}
+	for _, s := range sites {
 		mc, ok := s.Args()[1].(*ssa.MakeClosure)
 		if !ok {
 			r.Check(rule, FnKey(s.Fn)+":callback", c.Pos(s.Pos()), false, "the Inspect callback is not a literal closure")
@@ -1732,7 +1746,7 @@ func (c *Ctx) cutRangeRule(rule string) {
 		}
 		r.Check(rule, key+":updates", c.Pos(cb.Pos()), ns >= 3, sprintf("expected the callback to maintain both range bounds, found %d stores", ns))
 	}
-	r.Floor(rule, "ast.Inspect callbacks in GenerateBaseCode", n, 1)
+	r.Floor(rule, "ast.Inspect callbacks in the parser", n, 1)
 }
 
 // allLoops returns the natural loops of fn keyed by header.
@@ -1863,4 +1877,253 @@ func (c *Ctx) searchFlagRule(rule string) {
 		}
 	}
 	r.Note(rule+"_nested_loops_examined", n)
+}
+
+// huntRules1: obligations added after the defect hunt on the unmodified tree (findings F27…): each states what the
+// repaired code must keep doing and reports the original defect on the tree before its repair.
+func (c *Ctx) handlerStopRule(rule string) {
+	r := c.R
+	r.Rule(rule, "candidate handler: the walk over same-named candidates stops (handler returns true) only when the candidate produced an assignment, an error, or a nested copy was made – a candidate of the right name but an unusable type does not end the search (under :case:off several members can bear the name)")
+	n := 0
+	for _, dm := range c.defaultMatchers() {
+		seen := map[*ssa.Function]bool{}
+		for _, s := range append(c.CallsIn(dm, fnIterMethods, false), c.CallsIn(dm, fnIterFields, false)...) {
+			mc, ok := s.Args()[1].(*ssa.MakeClosure)
+			if !ok || seen[mc.Fn.(*ssa.Function)] {
+				continue
+			}
+			h := mc.Fn.(*ssa.Function)
+			seen[h] = true
+			n++
+			stop := c.Reach(h).RetCond(0, true)
+			produced := func(l core.Lit) bool {
+				t, pos := c.Canon(l)
+				if t.Kind == "fv" && pos { // the nested flag itself
+					return t.Type != nil && strings.HasSuffix(t.Type.String(), "bool")
+				}
+				if t.Kind != "binop" || t.Name != "==" || pos {
+					return t.Kind == "binop" && (t.Name == "<" || t.Name == ">") && pos && t.Contains(func(x *core.Term) bool { return x.IsField("model.NestStruct.Contents") })
+				}
+				// a != nil / err != nil on a captured result variable or on a value just produced
+				return t.Args[1].Is("const", "nil") || t.Args[0].Is("const", "nil")
+			}
+			_ = stop
+			okAll := true
+			var bad core.DNF
+			rc := c.Reach(h)
+			for _, ret := range core.Returns(h) {
+				t := c.O.Of(ret.Results[0])
+				if t.Is("const", "false") {
+					continue
+				}
+				// a result was stored just before returning (a = SimpleField{…}; return true)
+				storedHere := false
+				for _, in := range ret.Block().Instrs {
+					if st, ok := in.(*ssa.Store); ok {
+						if _, isFV := st.Addr.(*ssa.FreeVar); isFV {
+							if k, isK := st.Val.(*ssa.Const); !isK || !k.IsNil() {
+								if bt, isB := st.Val.Type().Underlying().(*types.Basic); !isB || bt.Kind() != types.Bool {
+									storedHere = true
+								}
+							}
+						}
+					}
+				}
+				if storedHere {
+					continue
+				}
+				d := rc.RetCondAt(ret, 0, true)
+				if !d.Implies(produced) {
+					okAll = false
+					bad = d
+				}
+			}
+			r.Check(rule, FnKey(h)+":stops-only-when-produced", c.Pos(h.Pos()), okAll,
+				"the handler can end the search for a candidate that produced nothing (wrong type): the outcome then depends on the declaration order of same-named source members; stop-condition: "+bad.Describe(c.O))
+		}
+	}
+	r.Floor(rule, "candidate handlers", n, 1)
+}
+
+// lookaheadVisibilityRule: the look-ahead asks ShouldSkip only about members the package can see.
+func (c *Ctx) lookaheadVisibilityRule(rule string) {
+	r := c.R
+	r.Rule(rule, "look-ahead for nested notations: ShouldSkip is consulted only for members that pass isStructFieldAccessible(<the struct>, member.ObjName()) – a pattern that happens to match an unexported member of an imported type must not break up the copy of the enclosing field")
+	n := 0
+	for _, fn := range c.P.Funcs() {
+		if fn.Parent() == nil || !strings.Contains(fn.Parent().Name(), "hasNotationUnder") {
+			continue
+		}
+		for _, s := range c.CallsIn(fn, fnShouldSkip, false) {
+			n++
+			d := c.ReachOf(s.Instr)
+			vis := c.M(true, func(t *core.Term) bool {
+				return t.IsCallTo(fnAccessible) && len(t.Args) == 3 && t.Args[2].IsCallTo(invObjName) && t.Args[2].Args[0].Kind == "param"
+			})
+			r.Check(rule, FnKey(fn)+":visible-members-only", c.Pos(s.Pos()), d.Implies(vis), "the look-ahead asks ShouldSkip about a member without the visibility test; reach: "+d.Describe(c.O))
+		}
+	}
+	r.Floor(rule, "ShouldSkip calls in the look-ahead", n, 1)
+}
+
+// typecastIdentityRule: a conversion target is local only if the scope's object is the type's own object.
+func (c *Ctx) typecastIdentityRule(rule string) {
+	r := c.R
+	r.Rule(rule, "NewTypecast: the target is rendered without a qualifier only when it has no package, when scope.Lookup(name) is the type's own object (identity, not mere existence of the name), or when its package is dot-imported; the element conversion of a slice copy is parenthesized for pointer elements")
+	fn := c.MustFunc(rule, "/pkg/builder/model", "NewTypecast")
+	if fn == nil {
+		return
+	}
+	// every comparison of scope.Lookup(…) in the function is against Obj(), never against nil
+	n := 0
+	for _, b := range fn.Blocks {
+		for _, in := range b.Instrs {
+			bo, ok := in.(*ssa.BinOp)
+			if !ok {
+				continue
+			}
+			x, y := c.O.Of(bo.X), c.O.Of(bo.Y)
+			if !x.IsCallTo("(*go/types.Scope).Lookup") && !y.IsCallTo("(*go/types.Scope).Lookup") {
+				continue
+			}
+			n++
+			other := y
+			if y.IsCallTo("(*go/types.Scope).Lookup") {
+				other = x
+			}
+			isObj := other.Contains(func(t *core.Term) bool { return t.IsCallTo("(*go/types.Named).Obj") })
+			r.Check(rule, sprintf("%s:lookup-compare%d", FnKey(fn), n), c.InstrPos(bo), isObj, "the conversion target is taken for a local type whenever the package scope has ANY object of that name (compared with "+other.String()+"): an imported type named like a local function or type loses its qualifier")
+		}
+	}
+	r.Floor(rule, "comparisons of scope.Lookup in NewTypecast", n, 1)
+	// slice element conversions
+	if st := c.P.LookupType("/pkg/generator/model", "SliceTypecastAssignment"); st != nil {
+		m := 0
+		for _, a := range c.Lits(st) {
+			f := LitFields(a)
+			if f["Cast"] == nil {
+				continue
+			}
+			m++
+			okP := false
+			for _, cs := range c.Reach(a.Parent()).Cases(f["Cast"]) {
+				t := c.O.Of(cs.V)
+				if t.Kind == "binop" && t.Contains(func(x *core.Term) bool { return x.Is("const", `"("`) }) && t.Contains(func(x *core.Term) bool { return x.Is("const", `")"`) }) {
+					cond := cs.Cond
+					if cond == nil {
+						cond = c.ReachOf(a)
+					}
+					if cond.Implies(c.M(true, func(x *core.Term) bool { return x.IsCallTo(fnIsPtr) })) {
+						okP = true
+					}
+				}
+			}
+			r.Check(rule, FnKey(a.Parent())+":slice-cast-parenthesized", c.InstrPos(a), okP, "the element conversion of a slice copy is never parenthesized: for pointer elements `*T(e)` does not compile, it must be `(*T)(e)`")
+		}
+		r.Floor(rule, "SliceTypecastAssignment literals with a Cast", m, 1)
+	}
+}
+
+// converterArgRule: a converter is never applied to a source that also returns an error.
+func (c *Ctx) converterArgRule(rule string) {
+	r := c.R
+	r.Rule(rule, "converter arguments: every NewConverterNode(arg, …) is reached only if the resolved source node's ReturnsError() is false (a two-value getter call cannot be an argument, and its error would have nowhere to go)")
+	n := 0
+	for _, s := range c.CallsTo(pBM + "NewConverterNode") {
+		if p := pkgOf(s.Fn); p == nil || p.Path() != mod+"/pkg/builder" {
+			continue
+		}
+		n++
+		d := c.ReachOf(s.Instr)
+		noErr := c.M(false, func(t *core.Term) bool {
+			return t.Kind == "invoke" && t.Name == invRetErr && t.Args[0].Kind == "extract" && t.Args[0].Args[0].IsCallTo("(*"+pBld+"assignmentBuilder).resolveExpr")
+		})
+		r.Check(rule, sprintf("%s:NewConverterNode%d", FnKey(s.Fn), n), c.Pos(s.Pos()), d.Implies(noErr), "a converter node is built around a source whose ReturnsError() was not tested; reach: "+d.Describe(c.O))
+	}
+	r.Floor(rule, "NewConverterNode sites in the builder", n, 1)
+}
+
+// loaderConfigRule: the loader runs in the setup file's directory and the import table takes real package names.
+func (c *Ctx) loaderConfigRule(rule string) {
+	r := c.R
+	r.Rule(rule, "loader configuration: packages.Config.Dir is filepath.Dir(filepath.Abs(<setup path>)) and the query is \"file=\"+<that absolute path> (the go command resolves module and imports relative to its directory: the result must not depend on where the process was started); for every import without an explicit name the import table entry is overwritten with the Name of the loaded package (not the last path element)")
+	np := c.MustFunc(rule, "/pkg/parser", "NewParser")
+	if np == nil {
+		return
+	}
+	absSrc := func(t *core.Term) bool {
+		return t.Kind == "extract" && t.Name == "0" && t.Args[0].IsCallTo("path/filepath.Abs") && t.Args[0].Args[0].Kind == "param"
+	}
+	for _, b := range np.Blocks {
+		for _, in := range b.Instrs {
+			a, ok := in.(*ssa.Alloc)
+			if !ok || !strings.HasSuffix(a.Type().String(), "go/packages.Config") {
+				continue
+			}
+			f := LitFields(a)
+			okDir := f["Dir"] != nil && c.O.Of(f["Dir"]).IsCallTo("path/filepath.Dir") && absSrc(c.O.Of(f["Dir"]).Args[0])
+			r.Check(rule, FnKey(np)+":Dir", c.InstrPos(a), okDir, "the loader runs in the process's working directory: started elsewhere, the package is loaded ad hoc and its imports resolve against another module or not at all")
+		}
+	}
+	for _, s := range c.CallsIn(np, "golang.org/x/tools/go/packages.Load", false) {
+		q := c.varargAt(s.Args()[1], 0)
+		okQ := q != nil && q.Kind == "binop" && q.Name == "+" && q.Args[0].Is("const", `"file="`) && absSrc(q.Args[1])
+		r.Check(rule, FnKey(np)+":query", c.Pos(s.Pos()), okQ, "the loader must be asked about \"file=\"+<absolute setup path>")
+	}
+	// real names
+	okNames := false
+	for _, b := range np.Blocks {
+		for _, in := range b.Instrs {
+			mu, ok := in.(*ssa.MapUpdate)
+			if !ok {
+				continue
+			}
+			v := c.O.Of(mu.Value)
+			if v.IsField("packages.Package.Name") && v.Contains(func(t *core.Term) bool { return t.IsField("packages.Package.Imports") }) {
+				d := c.ReachOf(mu)
+				noExplicit := c.M(true, isNilCmp(func(t *core.Term) bool { return t.IsField("ast.ImportSpec.Name") }))
+				okNames = d.Implies(noExplicit)
+			}
+		}
+	}
+	r.Check(rule, FnKey(np)+":declared-names", c.Pos(np.Pos()), okNames, "imports without an explicit name are known only by the last element of their path: `import \"example.com/model/v2\"` (package model) is rendered as v2.T and `model.F` in a notation is not found")
+}
+
+// logPathRule: the log never replaces the output.
+func (c *Ctx) logPathRule(rule string) {
+	r := c.R
+	r.Rule(rule, "ParseArgs succeeds only if the log path is empty or differs from the output path (the log is opened with O_TRUNC before anything else, also in a dry or failing run: `-log -out x.log` would clobber the output path)")
+	fn := c.MustMethod(rule, "/pkg/config", "Config", "ParseArgs")
+	if fn == nil {
+		return
+	}
+	differs := func(l core.Lit) bool {
+		t, pos := c.Canon(l)
+		if t.Kind != "binop" || t.Name != "==" {
+			return false
+		}
+		a, b := t.Args[0], t.Args[1]
+		isLog := func(x *core.Term) bool { return x.IsField("config.Config.Log") }
+		isOut := func(x *core.Term) bool { return x.IsField("config.Config.Output") }
+		if (isLog(a) && isOut(b)) || (isLog(b) && isOut(a)) {
+			return !pos
+		}
+		if (isLog(a) && b.Is("const", `""`)) || (isLog(b) && a.Is("const", `""`)) {
+			return pos
+		}
+		return false
+	}
+	noLog := c.M(false, func(t *core.Term) bool { return t.Kind == "deref" || strings.Contains(t.String(), `"log"`) })
+	_ = noLog
+	okAll, n := true, 0
+	var bad core.DNF
+	for _, ret := range c.successReturns(fn) {
+		n++
+		d := c.ReachOf(ret)
+		if !d.Implies(differs) {
+			okAll = false
+			bad = d
+		}
+	}
+	r.Check(rule, FnKey(fn)+":log≠output", c.Pos(fn.Pos()), okAll && n >= 1, "ParseArgs can succeed with Config.Log == Config.Output; reach: "+bad.Describe(c.O))
 }
